@@ -44,6 +44,18 @@ def _ap(ids):
     return d
 
 
+# how an absent label id of an integer-labelled span is realised: as another integer (default), or - for every other
+# record - as the string that spells a label which IS in the span ('101' on range(100, 104)): a string is not that label
+_CUR = {'ids': (), 'alt': False}
+
+
+def _absent_as_string(i, natural):
+    ids = _CUR['ids']
+    if _CUR['alt'] and ids and i not in ids:
+        return str(natural(ids[i % len(ids)]))
+    return natural(i)
+
+
 class SpanType:
     name = ''
     kind = ''
@@ -74,7 +86,7 @@ class RangeT(SpanType):
         return range(100 + ids[0], 100 + ids[-1] + (1 if d > 0 else -1), d)
 
     def label(self, i, form):
-        return 100 + i
+        return _absent_as_string(i, lambda j: 100 + j)
 
 
 class RangeZeroT(SpanType):
@@ -91,7 +103,7 @@ class RangeZeroT(SpanType):
         return range(ids[0] - 2, ids[-1] - 2 + (1 if d > 0 else -1), d)
 
     def label(self, i, form):
-        return i - 2
+        return _absent_as_string(i, lambda j: j - 2)
 
 
 _FALSY = {1: 'a', 2: '', 3: 0.0, 4: (), 5: 'e'}
@@ -135,7 +147,7 @@ class NpIntT(SpanType):
         return np.array([100 + i for i in ids], dtype=int)
 
     def label(self, i, form):
-        return 100 + i
+        return _absent_as_string(i, lambda j: 100 + j)
 
 
 class NpStrT(SpanType):
@@ -165,7 +177,7 @@ class PdIndexIntT(SpanType):
         return pd.Index([100 + i for i in ids], dtype='int64')
 
     def label(self, i, form):
-        return 100 + i
+        return _absent_as_string(i, lambda j: 100 + j)
 
 
 class PdPeriodAT(SpanType):
@@ -362,6 +374,7 @@ def replay_access(rec, typ, form, cls):
     """One record on one (type, form, class).  Returns list of (key, detail)."""
     found = []
     ids = rec['span']
+    _CUR['ids'], _CUR['alt'] = tuple(ids), (len(rec['log']) + sum(ids)) % 2 == 1
     c, span = build(rec, typ, cls)
     obs0 = observe(c, ids, typ, form)
     d0 = store_diffs(obs0, rec['init'])
